@@ -20,7 +20,9 @@ done
 /venv/bin/python tools/translate_ts_extend.py "${VERIF_REPO:-/repo}" coq/theories || true
 # causal_graph.py rollback mutators (change_edge_type, replace_edge, delete_node, delete_edge) -> MutGenRollback.v
 /venv/bin/python tools/translate_mutators.py "${VERIF_REPO:-/repo}" coq/theories || true
-for f in TSGenSummary TSGenStationary TSGenMinimal TSGenExtend MutGenRollback; do
+# causal_graph.py _set_edge / _prepare_nodes / add_edge / add_node -> MutGenAdd.v
+/venv/bin/python tools/translate_add_edge.py "${VERIF_REPO:-/repo}" coq/theories || true
+for f in TSGenSummary TSGenStationary TSGenMinimal TSGenExtend MutGenRollback MutGenAdd; do
   [ -f coq/theories/$f.v ] || echo "(* the translator failed closed *) Definition translator_failed_closed : True := 0." > coq/theories/$f.v
 done
 cd coq
